@@ -180,6 +180,9 @@ type c04Eng struct {
 	trace     []c04Ev
 	bsub      map[string]bool
 	bsubMap   map[string]bool // the map broker's node-level subscriptions (map plans)
+	presAdds  []string        // channels of the connection's successful AddPresence calls since the last take
+	connSubs  map[string]SubscribeOptions // connect-time server-side subscriptions (ConnectReply.Subscriptions)
+	trackCbs  []TrackCallback             // pending (unanswered) OnTrack authorisations
 	useMap    bool
 	closeGid  int64 // goroutine of a close() the driver did not start itself, seen at Transport.Close
 	subOpts   map[string]c04Opts
@@ -319,6 +322,11 @@ func (p *c04Pres) AddPresence(ch string, uid string, info *ClientInfo) error {
 	if !p.e.gate(c04GkPresAdd, ch) {
 		return c04ErrBoom
 	}
+	if p.e.client != nil && uid == p.e.client.uid {
+		p.e.mu.Lock()
+		p.e.presAdds = append(p.e.presAdds, ch)
+		p.e.mu.Unlock()
+	}
 	return p.MemoryPresenceManager.AddPresence(ch, uid, info)
 }
 
@@ -421,14 +429,31 @@ func c04Channels(prefix string, n int) []string {
 	return out
 }
 
+// c04EngCfg: optional node features of an engine instance.
+type c04EngCfg struct {
+	Map      bool // map broker + published keys (map-subscribe templates)
+	TickConc int  // clientPresenceUpdateConcurrency (> 1: the concurrent variant of the presence tick)
+	Keyed    bool // shared-poll (keyed) channels: every channel of the engine is a shared poll channel
+}
+
 func c04NewEng(armed []c04Gk, nch int, withMap ...bool) (*c04Eng, error) {
+	return c04NewEngCfg(armed, nch, c04EngCfg{Map: len(withMap) > 0 && withMap[0]})
+}
+
+func c04NewEngCfg(armed []c04Gk, nch int, ec c04EngCfg) (*c04Eng, error) {
 	e := &c04Eng{wake: make(chan struct{}, 1), why: map[string]int{}, byGid: map[int64]*c04Thread{}, bsub: map[string]bool{}, bsubMap: map[string]bool{}, subOpts: map[string]c04Opts{}}
 	for _, k := range armed {
 		e.armed[k] = true
 	}
 	cfg := Config{LogLevel: LogLevelNone, ClientStaleCloseDelay: time.Hour}
-	useMap := len(withMap) > 0 && withMap[0]
+	useMap := ec.Map
 	e.useMap = useMap
+	cfg.clientPresenceUpdateConcurrency = ec.TickConc
+	if ec.Keyed {
+		cfg.SharedPoll = SharedPollConfig{GetSharedPollChannelOptions: func(string) (SharedPollChannelOptions, bool) {
+			return SharedPollChannelOptions{RefreshInterval: 100 * time.Millisecond, RefreshBatchSize: 100, MaxKeysPerConnection: 100}, true
+		}}
+	}
 	if useMap {
 		cfg.Map = MapConfig{GetMapChannelOptions: func(string) MapChannelOptions {
 			return MapChannelOptions{Mode: MapModeEphemeral, KeyTTL: time.Minute, MinPageSize: 1}
@@ -437,6 +462,11 @@ func c04NewEng(armed []c04Gk, nch int, withMap ...bool) (*c04Eng, error) {
 	n, err := New(cfg)
 	if err != nil {
 		return nil, err
+	}
+	if ec.Keyed {
+		n.OnSharedPoll(func(ctx context.Context, ev SharedPollEvent) (SharedPollResult, error) {
+			return SharedPollResult{}, nil
+		})
 	}
 	if useMap {
 		mmb, err := NewMemoryMapBroker(n, MemoryMapBrokerConfig{})
@@ -462,6 +492,7 @@ func c04NewEng(armed []c04Gk, nch int, withMap ...bool) (*c04Eng, error) {
 	n.OnConnecting(func(ctx context.Context, ev ConnectEvent) (ConnectReply, error) {
 		if e.client != nil && ev.ClientID == e.client.uid {
 			e.gate(c04GkConnecting, "")
+			return ConnectReply{Subscriptions: e.connSubs}, nil
 		}
 		return ConnectReply{}, nil
 	})
@@ -472,6 +503,11 @@ func c04NewEng(armed []c04Gk, nch int, withMap ...bool) (*c04Eng, error) {
 		e.log("connectcb", "")
 		c.OnSubscribe(func(ev SubscribeEvent, cb SubscribeCallback) {
 			e.onSubscribe(ev, cb)
+		})
+		c.OnTrack(func(ev TrackEvent, cb TrackCallback) {
+			e.mu.Lock()
+			e.trackCbs = append(e.trackCbs, cb) // answered by answerTrack
+			e.mu.Unlock()
 		})
 		c.OnUnsubscribe(func(ev UnsubscribeEvent) {
 			e.gate(c04GkUnsubH, ev.Channel)
@@ -568,6 +604,11 @@ func (e *c04Eng) onSubscribe(ev SubscribeEvent, cb SubscribeCallback) {
 	e.trace = append(e.trace, c04Ev{"subcb", ev.Channel})
 	th := e.byGid[gid]
 	o := e.subOpts[ev.Channel]
+	if ev.Type == SubscriptionTypeSharedPoll {
+		e.mu.Unlock()
+		cb(SubscribeReply{Options: SubscribeOptions{Type: ev.Type, ExpireAt: time.Now().Unix() + 3600}, ClientSideRefresh: true}, nil)
+		return
+	}
 	if e.bypass || !e.armed[c04GkSubH] {
 		e.mu.Unlock()
 		cb(SubscribeReply{Options: SubscribeOptions{Type: ev.Type, EmitPresence: o.Pres, EmitJoinLeave: o.JL}}, nil)
@@ -929,6 +970,17 @@ func (e *c04Eng) spawn(o c04Op) *c04Thread {
 			_ = c.handleSubscribe(&protocol.SubscribeRequest{Channel: ch}, &protocol.Command{Id: 7}, time.Now(),
 				&replyWriter{write: func(*protocol.Reply) {}})
 		}
+	case "subkeyed": // shared-poll subscription (outside the model)
+		f = func() {
+			_ = c.handleSubscribe(&protocol.SubscribeRequest{Channel: ch, Type: int32(SubscriptionTypeSharedPoll)}, &protocol.Command{Id: 7}, time.Now(),
+				&replyWriter{write: func(*protocol.Reply) {}})
+		}
+	case "track": // track two keys; the OnTrack authorisation stays pending until answerTrack
+		f = func() {
+			_ = c.handleSubRefresh(&protocol.SubRefreshRequest{Channel: ch, Type: typeTrack,
+				Track: []*protocol.TrackBatch{{Items: []*protocol.KeyedItem{{Key: "k1", Version: 1}, {Key: "k2", Version: 1}}}}},
+				&protocol.Command{Id: 10}, time.Now(), &replyWriter{write: func(*protocol.Reply) {}})
+		}
 	case "subsrv":
 		f = func() { _ = c.Subscribe(ch, WithEmitPresence(o.Opts.Pres), WithEmitJoinLeave(o.Opts.JL)) }
 	case "unsubcli":
@@ -1012,6 +1064,40 @@ func (e *c04Eng) mapGoLive(th *c04Thread, ch string) {
 	_ = e.client.handleSubscribe(&protocol.SubscribeRequest{Channel: ch, Type: int32(SubscriptionTypeMap), Phase: MapPhaseState,
 		Limit: 100, Cursor: first.Cursor, Offset: first.Offset, Epoch: first.Epoch},
 		&protocol.Command{Id: 9}, time.Now(), e.mapReplyWriter(th))
+}
+
+// answerTrack answers the oldest pending OnTrack authorisation (in a thread of its own).
+func (e *c04Eng) answerTrack(ok bool) bool {
+	e.mu.Lock()
+	if len(e.trackCbs) == 0 {
+		e.mu.Unlock()
+		return false
+	}
+	cb := e.trackCbs[0]
+	e.trackCbs = e.trackCbs[1:]
+	e.mu.Unlock()
+	e.addCmd("CNoModel", "answer track")
+	e.runThread("trackanswer", false, func() {
+		if ok {
+			cb(TrackReply{}, nil)
+		} else {
+			cb(TrackReply{}, ErrorPermissionDenied)
+		}
+	})
+	return true
+}
+
+// takePresAdds returns (as channel indexes) and clears the AddPresence calls recorded for the connection.
+func (e *c04Eng) takePresAdds() []uint64 {
+	e.mu.Lock()
+	l := e.presAdds
+	e.presAdds = nil
+	e.mu.Unlock()
+	var out []uint64
+	for _, ch := range l {
+		out = append(out, e.chIdx(ch))
+	}
+	return out
 }
 
 // parkOf returns the first park of the given kind (nil if none).
@@ -1226,6 +1312,7 @@ type c04ChObs struct {
 	FJL   bool    `json:"fjl"`
 }
 
+
 type c04Obs struct {
 	Chs     []c04ChObs `json:"chs"`
 	Status  int        `json:"status"`
@@ -1238,6 +1325,7 @@ type c04Obs struct {
 	Stuck   string     `json:"stuck,omitempty"`
 	Drained bool       `json:"drained"`
 	Snaps   [][]c04Snap `json:"snaps"`
+	Extra   uint64      `json:"extra"` // tracked keys left in the shared poll manager
 }
 
 type c04Snap struct {
@@ -1360,6 +1448,10 @@ func (e *c04Eng) observe() c04Obs {
 		e.stuck = "hub clients and users maps disagree"
 	}
 	o.Reg = inClients
+	if n.sharedPollManager != nil {
+		_, keys := n.sharedPollManager.stats()
+		o.Extra = uint64(keys)
+	}
 	o.GConn = c04GaugeSum(n.metrics.connectionsInflight)
 	o.GSub = c04GaugeSum(n.metrics.subscriptionsInflight)
 	e.mu.Lock()
@@ -1423,7 +1515,7 @@ func (e *c04Eng) obsCoq(o c04Obs) string {
 		snaps = append(snaps, vList(xs))
 	}
 	return vApp("mkObs", vList(chs), vN(uint64(o.Status)), vBool(o.Reg), vZ(o.GConn), vZ(o.GSub), vList(tr),
-		vBool(o.Settled && o.Stuck == ""), vBool(o.Panic), vBool(o.Drained), vList(snaps))
+		vBool(o.Settled && o.Stuck == ""), vBool(o.Panic), vBool(o.Drained), vList(snaps), vN(o.Extra))
 }
 
 // ---- cases ------------------------------------------------------------------------------------
@@ -1437,12 +1529,22 @@ type c04Result struct {
 	Nontriv bool
 }
 
+type c04ConnSub struct {
+	Ch   int
+	Opts c04Opts
+}
+
 type c04Plan struct {
 	Name   string
 	Key    string // canonical finding key (props JSON finding_key = "key")
 	Armed  []c04Gk
 	NCh    int
 	Map    bool // node with a map broker and two published keys per channel (map-subscribe templates)
+	Keyed  bool // shared-poll channels (keyed tracking templates)
+	// NoModel: the schedule uses routes outside the Coq model (connect-time subscriptions, keyed tracking):
+	// the case is marked CNoModel and judged by the oracle on the observed end state only
+	NoModel  bool
+	ConnSubs []c04ConnSub // connect-time server-side subscriptions returned by OnConnecting
 	Script func(e *c04Eng, r *rand.Rand)
 	Drain  bool
 	Finish func(e *c04Eng) // replaces the default "release everything (and drain)" ending
@@ -1483,7 +1585,7 @@ func c04RunPlan(p c04Plan, seed int64) (res c04Result) {
 }
 
 func c04RunPlanOnce(p c04Plan, r *rand.Rand) (res c04Result, unsafe bool) {
-	e, err := c04NewEng(p.Armed, p.NCh, p.Map)
+	e, err := c04NewEngCfg(p.Armed, p.NCh, c04EngCfg{Map: p.Map, Keyed: p.Keyed})
 	if err != nil {
 		return c04Result{Term: "", JS: map[string]any{"error": err.Error()}, Class: "setup-error"}, false
 	}
@@ -1495,6 +1597,15 @@ func c04RunPlanOnce(p c04Plan, r *rand.Rand) (res c04Result, unsafe bool) {
 			fmt.Printf("timing %s: total-before-shutdown %v shutdown %v\n", p.Name, t3.Sub(t0), time.Since(t3))
 		}
 	}()
+	if len(p.ConnSubs) > 0 {
+		e.connSubs = map[string]SubscribeOptions{}
+		for _, cs := range p.ConnSubs {
+			e.connSubs[e.chs[cs.Ch]] = SubscribeOptions{EmitPresence: cs.Opts.Pres, EmitJoinLeave: cs.Opts.JL}
+		}
+	}
+	if p.NoModel {
+		e.addCmd("CNoModel", "no model: oracle only")
+	}
 	p.Script(e, r)
 	if p.Finish != nil {
 		p.Finish(e)
